@@ -41,7 +41,7 @@ def load_corpus(prop):
     # behaviour-preserving refactorings written by independent sub-agents (refactors/<set>/rN.diff): must stay silent.
     # A refactoring is tried for the properties whose anchored files it touches.
     rd = os.path.join(VERIF, 'refactors')
-    if os.path.isdir(rd):
+    if os.path.isdir(rd) and not os.environ.get('VERIF_SKIP_REFACTORS'):
         for st in sorted(os.listdir(rd)):
             for fn in sorted(os.listdir(os.path.join(rd, st))):
                 if not fn.endswith('.diff'):
